@@ -24,7 +24,14 @@ def sh(cmd, cwd=None, timeout=3600, check=False, env=None):
     return p.returncode, p.stdout
 
 
+# Optional renaming of variable names at encoding time (see props.renamed_cases): the semantic generators are
+# written over plain names (a, b, ..., z, zz, x1..); a second pass re-runs them with an order-preserving renaming
+# into awkward names (multi-character, numeric-looking, keyword-like, with blanks, non-ASCII, outside the BMP)
+RENAME = {}
+
+
 def hexname(s):
+    s = RENAME.get(s, s)
     return s.encode("utf-8").hex() if s else "-"
 
 
